@@ -1,11 +1,18 @@
 #!/bin/sh
 # Build the Lean project (models, proofs, drivers) offline. Idempotent.
-set -e
+# A module that does not build (e.g. a table theorem that no longer holds of the tables extracted
+# from /repo) must not stop the others: every check rebuilds what it needs and reports a broken
+# theorem itself, so failures here are only logged.
 export PATH="/opt/veriftools/lean/bin:$PATH"
-cd /verif/lean
-lake build
+cd /verif/lean || exit 1
+lake build || echo "setup: some modules did not build (see above); building the rest module by module"
+for f in VermouthProps/*.lean; do
+  m="VermouthProps.$(basename "$f" .lean)"
+  lake build "$m" >/dev/null 2>&1 || echo "setup: $m does not build"
+done
 # drivers (native executables, Mathlib-free import closure)
 for d in $(sed -n 's/^name = "\(driver_[a-z0-9]*\)"/\1/p' lakefile.toml); do
-  lake build "$d" || echo "driver $d failed to link; the interpreter fallback will be used"
+  lake build "$d" >/dev/null 2>&1 || echo "setup: driver $d failed to build; the interpreter fallback will be used"
 done
 mkdir -p /verif/evidence /verif/replays
+exit 0
